@@ -34,6 +34,10 @@ pub struct QueryCase {
     pub caller_pos: u16,
     pub controlled: bool,
     pub delays: Vec<(u8, u16)>,
+    /// microseconds every pair metric evaluation takes (0 = fast); with a slow metric the
+    /// per-shard counts are sampled while the workers are busy
+    #[serde(default)]
+    pub slow_metric_us: u16,
 }
 
 type Item = (u64, u64, Option<i64>, Option<i32>);
@@ -117,7 +121,22 @@ pub fn check_query(c: &QueryCase) -> CaseResult {
     let delays: Vec<(&'static str, u32, u32)> = c.delays.iter().map(|(occ, us)| ("store.cmd.begin", *occ as u32, *us as u32)).collect();
     let plan = if c.controlled { Plan { steps, delays, gate_timeout_ms: 300 } } else { Plan { steps: vec![], delays, gate_timeout_ms: 1 } };
     let installed = sched::install(plan);
+    ctl.slow_metric_us.store(c.slow_metric_us as u32, std::sync::atomic::Ordering::Relaxed);
     let (ok_resp, err_resp) = if c.owned { store.owned_track_distances(&ids, c.class, c.only_baked) } else { store.foreign_track_distances(cand_tracks, c.class, c.only_baked) };
+    if c.slow_metric_us > 0 {
+        // a distance query never changes what is stored: the per-shard counts add up to the
+        // number of stored tracks also while the workers are scanning their shards
+        for _ in 0..3 {
+            let total: usize = store.shard_stats().iter().sum();
+            if total != model.len() {
+                ctl.slow_metric_us.store(0, std::sync::atomic::Ordering::Relaxed);
+                let _ = ok_resp.all();
+                let _ = err_resp.all();
+                return Err(Fail::new("distance-count-during-query", format!("shard_stats sums to {} while a distance query is running, {} tracks are stored", total, model.len())));
+            }
+            std::thread::sleep(std::time::Duration::from_micros(150));
+        }
+    }
     let (raw, errs) = if c.errs_first {
         let errs = if c.use_iter { err_resp.into_iter().collect::<Vec<_>>() } else { err_resp.all() };
         let raw = if c.use_iter { ok_resp.into_iter().collect::<Vec<_>>() } else { ok_resp.all() };
@@ -127,6 +146,7 @@ pub fn check_query(c: &QueryCase) -> CaseResult {
         let errs = if c.use_iter { err_resp.into_iter().collect::<Vec<_>>() } else { err_resp.all() };
         (raw, errs)
     };
+    ctl.slow_metric_us.store(0, std::sync::atomic::Ordering::Relaxed);
     let expired = installed.ctl.expired();
     let log = installed.ctl.log();
     drop(installed);
@@ -227,6 +247,7 @@ pub fn query_case() -> impl Strategy<Value = QueryCase> {
             choices,
             caller_pos,
             controlled,
+            slow_metric_us: if delays.len() == 2 { 60 } else { 0 },
             delays,
         }})
 }
